@@ -30,11 +30,6 @@ theorem field_uint (st : Style) (env : PEnv) (max v : Nat) (hv : v ≤ max) :
   refine ⟨rfl, lexes_plain _ (natToDec_ne_nil v) (natToDec_plain v), ?_, notHash_plain _ (natToDec_plain v)⟩
   simp [parseField, asUint10_natToDec max v hv]
 
-theorem natToDec_all_isDigit (v : Nat) : (natToDec v).all isDigit = true := by
-  rw [List.all_eq_true]; intro c hc
-  have := natToDec_digits v c hc
-  simp [isDigit]; omega
-
 theorem field_ttl (st : Style) (env : PEnv) (v : Nat) (hv : v ≤ Consts.maxTTL) :
     FieldRT st env .ttl (.n v) (natToDec v) ⟨.ident, natToDec v⟩ := by
   refine ⟨rfl, lexes_plain _ (natToDec_ne_nil v) (natToDec_plain v), ?_, notHash_plain _ (natToDec_plain v)⟩
